@@ -115,7 +115,8 @@ def check_C06(run):
 
 def check_C08(run):
     run.model("AvroSystem", "AvroSystem_thorough" if run.thorough() else "AvroSystem_quick")
-    run.model("MC_Wire", "MC_Wire_quick")
+    # the same statement on concrete bytes: writer rules + container layout + the judge's own CutWalk, every cut
+    run.model("MC_SystemBytes", "MC_SystemBytes_thorough" if run.thorough() else "MC_SystemBytes", timeout=3000)
     out, meta = run.drive("C08")
     require_realised(meta, ["count-2-bytes", "len-2-bytes", "len-3-bytes", "blocks=0", "blocks=1", "blocks=3", "payload-over-1MiB"])
     total, rejected, states, _ = V.judge(run.scratch, "Trace_Reader", out)
